@@ -29,14 +29,14 @@ func init() {
 var e1Hooks = map[string]func(r *e1run){}
 
 // expected RFC 6381 string of a video parameter set, computed independently of pkg/codecparams.
-func c16VideoCodec(kind string, par int) (string, *regexp.Regexp) {
+func c16VideoCodec(cfg muxCfg, kind string, par int) (string, *regexp.Regexp) {
 	switch kind {
 	case "h264":
-		sps := h264Params[par].sps
+		sps := cfg.pset(kind, par).sps
 		return fmt.Sprintf("avc1.%02x%02x%02x", sps[1], sps[2], sps[3]), nil
 	case "h265":
 		var sps h265.SPS
-		if err := sps.Unmarshal(h265Params[par].sps); err != nil {
+		if err := sps.Unmarshal(cfg.pset(kind, par).sps); err != nil {
 			return "?", nil
 		}
 		ptl := sps.ProfileTierLevel
@@ -98,8 +98,9 @@ func c16VideoCodec(kind string, par int) (string, *regexp.Regexp) {
 		prefix := fmt.Sprintf("av01.%d.%02d%s.%02d", sh.SeqProfile, sh.SeqLevelIdx[0], tier, sh.ColorConfig.BitDepth)
 		return prefix, regexp.MustCompile("^" + regexp.QuoteMeta(prefix) + `(\.[0-9]\.[0-9]{3}\.[0-9]{2}\.[0-9]{2}\.[0-9]{2}\.[01])?$`)
 	case "vp9":
-		prefix := "vp09.00."
-		return prefix, regexp.MustCompile(`^vp09\.00\.[0-9]{2}\.08(\..*)?$`)
+		ps := cfg.pset(kind, par)
+		prefix := fmt.Sprintf("vp09.%02d.", ps.profile)
+		return prefix, regexp.MustCompile(fmt.Sprintf(`^vp09\.%02d\.[0-9]{2}\.%02d(\..*)?$`, ps.profile, ps.bitDepth))
 	}
 	return "", nil
 }
@@ -155,7 +156,7 @@ func c16Check(r *e1run, k int) {
 		var wnt want
 		if t.video() {
 			hasVideo = true
-			wnt.exact, wnt.re = c16VideoCodec(t.Kind, r.model.codecPar)
+			wnt.exact, wnt.re = c16VideoCodec(r.cfg, t.Kind, r.model.codecPar)
 		} else {
 			wnt.exact = c16AudioCodec(t.Kind)
 		}
@@ -184,14 +185,8 @@ func c16Check(r *e1run, k int) {
 	if hasVideo {
 		var ps paramSet
 		switch r.cfg.Tracks[lead].Kind {
-		case "h264":
-			ps = h264Params[r.model.codecPar]
-		case "h265":
-			ps = h265Params[r.model.codecPar]
-		case "av1":
-			ps = av1Params[r.model.codecPar]
-		case "vp9":
-			ps = vp9Params[r.model.codecPar]
+		case "h264", "h265", "av1", "vp9":
+			ps = r.cfg.pset(r.cfg.Tracks[lead].Kind, r.model.codecPar)
 		}
 		if wantRes := fmt.Sprintf("%dx%d", ps.width, ps.height); v.Resolution != wantRes {
 			r.add("C16", "resolution", "RESOLUTION is %q, the current video parameter set (%d) describes %s (write %d); ops %s", v.Resolution, r.model.codecPar, wantRes, w, r.opsString())
@@ -454,6 +449,20 @@ func c16Scens(tier string) []e1Scen {
 				out = append(out, e1Scen{Prop: "C16", Cfg: dcfg, Alpha: word, Mode: "long", Len: len(word), Name: "c16-word"})
 			}
 		}
+	}
+	// parameter sets that differ in one component only: CODECS / RESOLUTION follow exactly what changed
+	for _, kd := range paramDeltas() {
+		cfg := mcfg("fmp4", false, 3, kd[0])
+		cfg.ParamDelta = kd[1]
+		var word []sym
+		for i, k := range []string{"R", "n", "R", "n", "P", "n", "R", "N", "r", "n", "R", "P", "n", "R"} {
+			d := "h"
+			if i == 0 {
+				d = "f"
+			}
+			word = append(word, sym{T: 0, D: d, K: k})
+		}
+		out = append(out, e1Scen{Prop: "C16", Cfg: cfg, Alpha: word, Mode: "long", Len: len(word), Name: "c16-param-delta"})
 	}
 	// zero-duration segments and parameter changes at the same instant (single-stream, bandwidth formulas)
 	for _, variant := range []string{"mpegts", "fmp4", "ll"} {
